@@ -2,7 +2,8 @@
 # Per grammar (seeded random, with definitions, within-word expressions, descriptions, commands) and shell: the canonical file and
 # re-laid-out files - TLC-chosen blanks at every token boundary (LayoutGen.tla: single deviations and random multi-deviation
 # layouts over spaces, tabs, newlines, comments, form feed), `::=` for `=`, final `;` dropped, redundant parentheses around
-# items outside words, definitions permuted (also moved between the call variants, whose own order is kept).
+# items outside words (also between a literal and its description: `(lit) "descr"`), definitions permuted (also moved between the
+# call variants, whose own order is kept).
 # Observed: digest of the script (version line removed).  Decided by TLC: MemoCheck.tla keyed by (abstract grammar, shell).
 import json, random, time
 import core, corpus, gen, layout, cli, memo
@@ -25,8 +26,27 @@ def variants_of(rnd, vs, defs, k):
         assign = [rnd.choice(["=", "::="]) for _ in range(max(1, len(defs)))]
         semi = rnd.random() < 0.5
         wrap = set(rnd.sample(range(1, nn + 1), min(nn, rnd.randint(0, 4))))
-        out.append((assign, semi, order, wrap))
+        # described literals written `(lit) "descr"`: the parentheses are redundant, the description then reaches the literal from the group
+        # (not directly under `...`: `(lit) "descr"...` is not in the syntax, a group's description cannot be followed by `...`)
+        under_many = {c for n in ast0["nodes"] if n["k"] == "many" for c in n["c"]}
+        described = [i + 1 for i, n in enumerate(ast0["nodes"]) if n["k"] == "lit" and n["hd"] and (i + 1) not in under_many]
+        inner = set(x for x in described if rnd.random() < 0.4)
+        out.append((assign, semi, order, wrap - inner, inner))
     return out
+
+
+def described_groups():
+    """a description after a group that contains a literal with a description of its own followed by literals without one
+    (the group's description goes to the first literal that has none), also under [ ], `|` and `||` and next to another group"""
+    L = gen.L
+    out = []
+    out.append(("dd", ("seq", [L("b", "short form"), L("build")]), "Compile the current package"))
+    out.append(("dd", ("seq", [L("b", "short form"), L("build"), L("third")]), "Compile"))
+    out.append(("dd", ("seq", [("opt", L("b", "short form")), L("build")]), "Compile"))
+    out.append(("dd", ("seq", [("alt", [L("b", "short form"), L("c")]), L("build")]), "Compile"))
+    out.append(("seq", [("dd", ("seq", [L("a", "first"), L("b")]), "group one"), ("dd", ("seq", [L("c"), L("d", "fourth")]), "group two"), L("e")]))
+    out.append(("alt", [("dd", ("seq", [L("run", "r"), L("now")]), "when"), L("test", "t"), ("dd", ("seq", [L("x"), L("y", "why")]), "ex")]))
+    return [([("cmd", t)], []) for t in out]
 
 
 def build_corpus(tier, seed):
@@ -42,11 +62,13 @@ def build_corpus(tier, seed):
     from props import c08
     for variants, defs in c08.dag_grammars(rnd, 12 if tier == "quick" else 120):
         protos.append(([("cmd", v) for v in variants], defs))
+    ndag = len(protos)
+    protos += described_groups()
     cases, lay_in = [], []
     for g, (vs, defs) in enumerate(protos):
-        recipes = [("=", True, None, None)] + variants_of(rnd, vs, defs, (2 if tier == "quick" else 5) + (8 if len(defs) >= 3 and g >= ngram else 0))
-        for r, (assign, semi, order, wrap) in enumerate(recipes):
-            toks, ast = gen.statements_tokens(vs, defs, assign=assign, semi=semi, order=order, wrap=wrap)
+        recipes = [("=", True, None, None, None)] + variants_of(rnd, vs, defs, (2 if tier == "quick" else 5) + (8 if len(defs) >= 3 and g >= ngram else 0) + (6 if g >= ndag else 0))
+        for r, (assign, semi, order, wrap, inner) in enumerate(recipes):
+            toks, ast = gen.statements_tokens(vs, defs, assign=assign, semi=semi, order=order, wrap=wrap, wrap_inner=inner)
             layout.annotate(toks)
             pid = len(lay_in) + 1
             lay_in.append({"id": pid, "toks": layout.tok_records(toks), "_toks": toks, "g": g, "recipe": r})
@@ -95,7 +117,7 @@ def run(tier):
     cov = {"states": res.distinct + res1.distinct + res2.distinct, "transitions": res.generated + res1.generated + res2.generated,
            "traces_validated_against_impl": nval, "samples": samples, "programs": ngram, "evaluations": len(cases),
            "distinct_nontrivial": sum(len(x) - 1 for x in groups.values()), "groups": len(groups), "front_end": stats,
-           "rule": "%d seeded grammars x 4 shells; per grammar the canonical file, recipes (`::=`, final `;` dropped, redundant parentheses, permuted / moved "
+           "rule": "%d seeded grammars x 4 shells; per grammar the canonical file, recipes (`::=`, final `;` dropped, redundant parentheses - also between a literal and its description -, permuted / moved "
                    "definitions) and TLC-chosen layouts of each; non-trivial = distinct re-laid-out file texts beyond the first of a (grammar, shell) group" % ngram,
            "known_findings_hit": sorted(v.known_hits)}
     rc = v.finish()
